@@ -41,9 +41,55 @@ Proof. exact after_inv. Qed.
 Theorem C18_nonvacuous : Inv ex_st /\ ctx_ok ex_ctx.
 Proof. exact (conj ex_inv ex_ctx_ok). Qed.
 
+(** ** All histories.  The chain is the product of the operational models of the other properties
+    ([world]: AMM with pool creation, stored parameter sets under governance, token-pair registry, CSR
+    registry with the post-transaction hook, epoch clock with inflation as listener, govshuttle port);
+    [abs] is the stored state the seven modules export.  [WInv] is the conjunction of the models' own
+    invariants (coinswap well-formedness and "next sequence = 1 + highest sequence", stored parameters
+    valid, registry invariants of C15 and C16, listed NFT ids, epochs per period > 0, epoch records). *)
+
+(* coinswap: along every history of the AMM the next pool sequence is one above the highest in use *)
+Theorem C18_coinswap_sequence : forall h s,
+  Canto.Proofs.CoinswapEffects.WF s -> Canto.Proofs.GenesisCoinswap.seq_exact s ->
+  Canto.Proofs.GenesisCoinswap.seq_exact (Canto.Model.Coinswap.run h s).
+Proof. exact Canto.Proofs.GenesisCoinswap.run_seq_exact. Qed.
+
+(* every operation keeps the invariant of the world, every invariant world exports an [Inv] state *)
+Theorem C18_wstep_inv : forall gov day o w, WInv w -> op_ok w o -> WInv (wstep gov day o w).
+Proof. exact wstep_inv. Qed.
+Theorem C18_abs_inv : forall w, WInv w -> Inv (abs w).
+Proof. exact abs_inv. Qed.
+
+(* after any history: the export is valid, imports, re-exports to the same documents, answers the same.
+   _partial: see Proofs/GenesisProofs.v - the CSR clause of [op_ok] is assumed, not derived. *)
+Theorem C18_history_partial : forall gov day c os w,
+  ctx_ok c -> WInv w -> hist_ok gov day w os ->
+  let s := abs (wrun gov day os w) in
+  validate (export s) = true /\
+  exists s', import c (export s) = Some s' /\
+             gen_equiv (export s') (export s) /\
+             forall pr, answer pr s' = answer pr s.
+Proof. exact history_partial. Qed.
+
+Theorem C18_history_nonvacuous : WInv ex_world /\ hist_ok ex_gov 0 ex_world ex_ops.
+Proof. exact (conj ex_winv ex_hist_ok). Qed.
+
+(* the overflow guard of the invariant is needed: validator-accepted inflation parameters exist for which
+   InitGenesis panics on the module's own (valid) export *)
+Theorem C18_import_without_guard_refuted :
+  exists c s, ctx_ok c /\ inf_valid (is_par s) = true /\ 0 < is_epp s /\ 0 <= is_ident s /\
+              validate_inf (export_inf s) = true /\ import_inf c (export_inf s) = None.
+Proof. exact import_without_guard_refuted. Qed.
+
 Print Assumptions C18_export_valid.
 Print Assumptions C18_import_export_defined.
 Print Assumptions C18_fixed_point.
 Print Assumptions C18_queries_equal.
 Print Assumptions C18_after_inv.
 Print Assumptions C18_nonvacuous.
+Print Assumptions C18_coinswap_sequence.
+Print Assumptions C18_wstep_inv.
+Print Assumptions C18_abs_inv.
+Print Assumptions C18_history_partial.
+Print Assumptions C18_history_nonvacuous.
+Print Assumptions C18_import_without_guard_refuted.
